@@ -77,16 +77,31 @@ Oracle (per case, all cells of the rendered area):
    Button / CheckBox / SelectableIcon keeps the cursor where its icon's cursor_position says, e.g. on the
    first row of a wrapped label, whatever row was asked for - weaker reading, nothing asserted there).
 
-Nothing is asserted for cells in margins, dividers, borders, the Overlay's bottom widget (Overlay
-documents "ignore if outside of top_w") and unselectable children (clause 3): there Columns/Padding
-snap to the nearest selectable cell on purpose.  The events are still sent there (no crash).
+   Every *other* cell of the rendered area (rows of a Filler above / below its child, rows below a column that is
+   shorter than its neighbours, dividers, borders, margins, unselectable children, leaves below a Frame / ListBox /
+   Overlay) gets the second half of the sentence alone, "... and afterwards the reported cursor is on the requested
+   row" (Widget.move_cursor_to_coords documents the same: True "if the position was set successfully anywhere on
+   *row*"): a fresh tree is asked to move its cursor to the cell; if it says it did and then reports a cursor, the
+   tree is drawn (fit precondition) and the leaf whose rectangle holds the reported cursor must be drawn on the
+   requested row - for an Edit the cursor itself must be on that row, for the SelectableIcon based leaves the weaker
+   reading above (``move-cursor-requested-row``).  No twin, no geometry helper: who refuses such a row (the
+   decoration, the container, the leaf) is the library's business, the tree as a whole must.  Nothing is asserted
+   about the column (Columns / Padding snap to the nearest selectable column on purpose), about a tree that
+   reports no cursor afterwards, and about a cursor shown by a leaf below a Frame / ListBox / Overlay (the cell never
+   reached that leaf).  Every row is visited; in a row the first and last column of every maximal run of cells that
+   show the same thing in the first drawing.
+
+Nothing is asserted about mouse events on cells in margins, dividers, borders and the Overlay's bottom widget
+(Overlay documents "ignore if outside of top_w").  The events are still sent there (no crash).
 
 Nothing at all is reported before the fit precondition has been established on a drawing: the answer of
 the never-rendered tree is held back until the first render passed the fit check, and a render that raises
 is discarded (rendering failures are C01's) unless it is an instance of a listed cursor defect.
 
 Known findings are matched by **root cause**, not by symptom: ``FixedOverlay`` / ``FixedFiller`` /
-``FixedGridFlow`` below are subclasses that override exactly the one method each proposed patch touches.
+``FixedGridFlow`` below are subclasses that override exactly the one method each proposed patch touches
+(``columns-move``, the row test proposed for Columns.move_cursor_to_coords, replaces the method on the class
+while a case is re-run, because Button / CheckBox / GridFlow / LineBox are made of Columns the harness does not build).
 When a violation is about to be raised, the same case is re-run with one of them substituted (then with a
 minimal set of them): a violation that no longer occurs (the tree still fitting) gets the mark
 ``[fixed-by:<name>]`` and only marked violations can match a KNOWN predicate.  Marked violations are
@@ -94,6 +109,7 @@ remembered and the case goes on with the remaining cells, so the campaign search
 """
 from __future__ import annotations
 
+import contextlib
 import functools
 import json
 import os
@@ -126,7 +142,10 @@ RULE = (
     "items not rendered with focus may be scrolled out or cut, nothing is asserted about those).  Per "
     "case ALL cells of the rendered area are visited: one state-free mouse event per cell, one move_cursor_to_coords "
     "on a fresh tree per cell of a selectable leaf (accept == twin leaf, cursor == twin cursor translated, and for "
-    "Edit leaves literally: reported cursor row == requested row), the state-free mouse event on a never drawn "
+    "Edit leaves literally: reported cursor row == requested row), one move_cursor_to_coords on a fresh tree for "
+    "every other part of the rendered area (every row x first and last column of every run of cells showing the same "
+    "thing: filler rows, rows below a short column, dividers, borders, unselectable leaves; success + a reported "
+    "cursor -> the leaf showing it is drawn on the requested row), the state-free mouse event on a never drawn "
     "fresh tree for the corners and centre of every leaf, plus a history of <=6 steps on the live tree "
     "(button-1 press on a cell / new text, caption or label for a leaf through its setter, text from the same "
     "alphabet so rows grow and shrink / one of 14 keys to a selectable root / a focus or alignment setter of a "
@@ -140,7 +159,10 @@ RULE = (
     "every setter spelling x 6 values x two calls x the 4 orders; and Padding (flow and box) / Filler / Overlay "
     "(either axis) over a two-row Edit x relative share 100 / 60 % x every pair of fixed margins x minimum size = "
     "need +0 / +2 x left, center, right, ('relative', 30) x every size from the child's bare need to +6 columns / +4 "
-    "rows (3664 cases).  Non-trivial: >=2 nested "
+    "rows (3664 cases); and every way of giving a flow child fewer rows than the holder has (Filler 'pack' x 4 "
+    "valigns x top / bottom 0..1, child bare / in AttrMap / in LineBox; box Pile with a pack item; flow and box Columns "
+    "with a taller neighbour) x Edit (1 row, caption row), SelectableIcon (1, 2 rows), Button (1, 4 rows), CheckBox, "
+    "RadioButton x 0, 1, 3 spare rows (888 cases).  Non-trivial: >=2 nested "
     "container/decoration levels and a non-zero offset (second child, divider, margin/alignment, header, border, "
     "overlay)."
 )
@@ -165,6 +187,11 @@ ASSUMPTIONS = [
     "the leaf rendered with focus, must be drawn in full",
     "a mouse release / button 2,3 press / meta release changes no widget state, so the event a 'size' step sends "
     "before the tree is drawn at the new size is judged on the drawing made right after it",
+    "clause 3 outside the selectable leaves: the leaf that shows the cursor after an accepted move is the probe whose "
+    "attribute is on the cell of the reported cursor in a drawing of that tree made right after the move (cursor "
+    "agreement itself is clause 1); 'on the requested row' is read for SelectableIcon based leaves as 'the leaf is drawn "
+    "on that row' (they keep the cursor where cursor_position says), for Edit literally; a move that succeeds without a "
+    "cursor being reported afterwards, and a cursor shown below a Frame / ListBox / Overlay, assert nothing",
     "render(size, True) with the previous root canvas still referenced (canvas cache warm) is a 'focused rendering' "
     "of the widget in the sense of the statement, as is the one made after CanvasCache.clear()",
 ]
@@ -249,11 +276,11 @@ class FixedOverlay(urwid.Overlay):
 class FixedFiller(urwid.Filler):
     def move_cursor_to_coords(self, size, col, row):
         maxcol, maxrow = self.pack(size, True)
-        if not hasattr(self._original_widget, "move_cursor_to_coords"):
-            return True
         top, bottom = self.filler_values(size, True)
         if row < top or row >= maxrow - bottom:
-            return False
+            return False  # proposed patch: the rows of the filler are refused whatever the wrapped widget is
+        if not hasattr(self._original_widget, "move_cursor_to_coords"):
+            return True
         if self.height_type == WHSettings.PACK:
             return self._original_widget.move_cursor_to_coords((maxcol,), col, row - top)
         return self._original_widget.move_cursor_to_coords((maxcol, maxrow - top - bottom), col, row - top)
@@ -266,7 +293,49 @@ class FixedGridFlow(urwid.GridFlow):
         return super().pack(size, focus)
 
 
-FIXES = {"overlay-cursor": ("over", FixedOverlay), "filler-move": ("filler", FixedFiller), "gridflow-pack": ("grid", FixedGridFlow)}
+def _columns_move_rows_checked(inner):
+    """Columns.move_cursor_to_coords with the proposed patch added to whatever the tree under test does: a row on
+    which nothing of the chosen column's widget is drawn (above / below a column shorter than the tallest one) is
+    refused - what Columns.mouse_event does since 766fe4d.  The patch proper tests the row before the child is asked;
+    here the method of the tree is called first and its success withdrawn (the tree is thrown away after the call)"""
+
+    def move_cursor_to_coords(self, size, col, row):
+        focus, pref_col = (self.focus_position if self.contents else None), self.pref_col
+        rval = inner(self, size, col, row)
+        if rval is False or not self.contents:
+            return rval
+        heights = self.get_column_sizes(size, focus=True)[1]
+        if 0 <= row < heights[self.focus_position]:
+            return rval
+        self.focus_position, self.pref_col = focus, pref_col
+        return False
+
+    return move_cursor_to_coords
+
+
+@contextlib.contextmanager
+def applied(fixes):
+    """the proposed patches that cannot be carried by a subclass the harness builds: Columns is also what Button /
+    CheckBox / GridFlow / LineBox are made of, so `columns-move` replaces the method on the class while a case is
+    re-run for attribution (never during the campaign proper: Harness.fixes is empty there)"""
+    if "columns-move" not in fixes:
+        yield
+        return
+    old = urwid.Columns.__dict__["move_cursor_to_coords"]
+    urwid.Columns.move_cursor_to_coords = _columns_move_rows_checked(old)
+    try:
+        yield
+    finally:
+        urwid.Columns.move_cursor_to_coords = old
+
+
+# name -> (kinds of node whose presence makes the patch a candidate, subclass the harness builds instead | None: `applied`)
+FIXES = {
+    "overlay-cursor": (("over",), FixedOverlay),
+    "filler-move": (("filler",), FixedFiller),
+    "gridflow-pack": (("grid",), FixedGridFlow),
+    "columns-move": (("cols", "grid", "btn", "chk", "radio"), None),
+}
 
 FLOW_LEAVES = ("edit", "icon", "btn", "chk", "radio", "text")
 LEAF_W = {"edit": 3, "icon": 2, "text": 2, "btn": 6, "chk": 7, "radio": 7, "fill": 1}
@@ -779,6 +848,15 @@ def rectangles(grid):
     return {pid: (b[0], b[1], b[2] - b[0] + 1, b[3] - b[1] + 1, b[4]) for pid, b in box.items()}
 
 
+def run_ends(cells):
+    """first and last index of every maximal run of equal entries"""
+    out = []
+    for i, a in enumerate(cells):
+        if i == 0 or a != cells[i - 1] or i + 1 == len(cells) or a != cells[i + 1]:
+            out.append(i)
+    return out
+
+
 def pid_at(grid, c, r):
     attr = grid[r][c]
     if isinstance(attr, str) and attr[:1] == "P" and attr[1:].isdigit():
@@ -886,7 +964,7 @@ class Harness:
             except (Discard, RenderFailed):
                 return False
 
-        names = [name for name, (kind, _cls) in FIXES.items() if kind in self.kinds]
+        names = [name for name, (kinds, _cls) in FIXES.items() if self.kinds.intersection(kinds)]
         for gone in ([local] if recheck is not None else []) + [whole]:
             for name in names:
                 if gone([name]):
@@ -1232,7 +1310,68 @@ class Harness:
             return
 
         def recheck(names):
-            v2, _label = self.move_violation(self.fixes | names, *args)
+            with applied(self.fixes | names):
+                v2, _label = self.move_violation(self.fixes | names, *args)
+            return v2 is None or not _same(v2, v)
+
+        try:
+            self.report(v, recheck)
+        except Skip:
+            return
+
+    def elsewhere_violation(self, fixes, c, r):
+        """clause 3 for a cell that is no cell of a selectable leaf on the move path (margin rows of a Filler, the
+        rows below a column that is shorter than its neighbours, dividers, borders, unselectable children): the
+        statement's "... and afterwards the reported cursor is on the requested row", no twin and no geometry helper
+        involved.  A fresh tree is asked to move its cursor to the cell; if it says it did and then reports a
+        cursor, the tree is drawn (fit precondition) and the leaf whose rectangle holds the reported cursor must be
+        drawn on the requested row (Edit: the cursor itself is on that row).  Which column the cursor is in is not
+        the statement's (Columns / Padding snap to the nearest selectable column on purpose).
+        -> (Violation | None, label for the statistics)"""
+        with applied(fixes):
+            root, reg = self.fresh(fixes=fixes)
+            what = f"move_cursor_to_coords({self.size}, {c}, {r})"
+            try:
+                got = self.raw(lambda: root.move_cursor_to_coords(self.size, c, r), what)
+                if not got:
+                    return None, "move:elsewhere:rejected"
+                cur = self.raw(lambda: root.get_cursor_coords(self.size), f"get_cursor_coords (after {what})")
+            except Violation as v:
+                return v, None
+            if cur is None:
+                return None, "move:elsewhere:accepted:no-cursor-reported"
+            try:
+                _canv, grid, rects, sizes = self.draw_raw(root, reg, count=False)
+            except (Discard, RenderFailed):
+                return None, "move:elsewhere:accepted:tree-does-not-fit-afterwards"
+        x, y = cur
+        if not (0 <= y < len(grid) and 0 <= x < len(grid[y])):
+            return None, "move:elsewhere:accepted:cursor-outside-the-drawing"  # clause 1's business
+        pid = pid_at(grid, x, y)
+        if pid is None or pid not in rects or reg.probes[pid]["bg"] or not reg.probes[pid]["mv"]:
+            # the cursor is shown by a widget below a Frame / ListBox / Overlay (no move_cursor_to_coords: the
+            # container above them moved its focus there, the cell never reached the leaf)
+            return None, "move:elsewhere:accepted:cursor-below-a-widget-without-the-method"
+        left, top, _w, h, _n = rects[pid]
+        kind = reg.probes[pid]["node"]["k"]
+        if not top <= r < top + h or (kind in ROW_EXACT and y != r):
+            return Violation(
+                "move-cursor-requested-row",
+                f"{what} returned {got!r} but afterwards the root reports its cursor at {cur!r}, in probe {pid} ({kind} "
+                f"{reg.probes[pid]['node']['leaf']!r}) which is drawn on rows {top}..{top + h - 1}"
+                + ("" if top <= r < top + h else f": {NOT_ON_ROW} {r}")
+                + f" (the cell is outside every selectable leaf of the first drawing; size of the leaf {sizes.get(pid)})",
+            ), None
+        return None, "move:elsewhere:accepted:cursor-on-the-requested-row"
+
+    def move_elsewhere(self, c, r):
+        v, label = self.elsewhere_violation(self.fixes, c, r)
+        if v is None:
+            stat(label)
+            return
+
+        def recheck(names):
+            v2, _label = self.elsewhere_violation(self.fixes | names, c, r)
             return v2 is None or not _same(v2, v)
 
         try:
@@ -1245,7 +1384,8 @@ class Harness:
         with warnings.catch_warnings(record=True) as wlist:
             warnings.simplefilter("always")
             try:
-                self._run()
+                with applied(self.fixes):
+                    self._run()
             except Skip:
                 pass
             for wm in wlist:
@@ -1277,7 +1417,8 @@ class Harness:
         for v in found:
 
             def recheck(names, v=v):
-                return not any(_same(x, v) for x in self.initial(self.fixes | names)[6])
+                with applied(self.fixes | names):
+                    return not any(_same(x, v) for x in self.initial(self.fixes | names)[6])
 
             try:
                 self.report(v, recheck)
@@ -1289,6 +1430,7 @@ class Harness:
 
         # clause 3: a fresh tree per cell (rectangles of the first drawing = the initial state)
         if hasattr(root, "move_cursor_to_coords"):
+            twinned = set()
             for pid, p in enumerate(reg.probes):
                 if not p["sel"] or p["bg"]:
                     continue
@@ -1300,7 +1442,18 @@ class Harness:
                 left, top, w, h, _n = rects0[pid]
                 for r in range(top, top + h):
                     for c in range(left, left + w):
+                        twinned.add((c, r))
                         self.move(c, r, pid, p, rects0[pid], sizes0[pid])
+            # ... and every other cell of the rendered area (margins, dividers, borders, rows below a short column,
+            # unselectable children, leaves below a Frame / ListBox / Overlay): if the tree says it moved its cursor
+            # there, the cursor it reports is in a leaf drawn on the requested row
+            # there, the cursor it reports is in a leaf drawn on the requested row.  Every row; in a row the first and
+            # the last column of every maximal run of cells that show the same thing in the first drawing (one leaf,
+            # or the same margin / divider / border attribute): the clause is about the row, columns are snapped
+            for r in range(nrows):
+                for c in run_ends(grid0[r]):
+                    if (c, r) not in twinned:
+                        self.move_elsewhere(c, r)
 
         # clause 2 "without rendering": the event reaches a tree that was never drawn (nor asked anything) at any
         # size - input that arrives before the first screen update.  What is drawn where is read off the first
@@ -1888,8 +2041,41 @@ def min_size_cases():
                             }
 
 
+def row_margin_cases():
+    """every way the generated widgets have of giving a flow child fewer rows than they have themselves - Filler
+    with height 'pack' (top / middle / bottom / ('relative', 30) x fixed top and bottom rows 0..1; the child bare, in an
+    AttrMap, in a LineBox), a box Pile with a 'pack' item above a weighted one, a Columns (flow and box root) with a
+    taller neighbour - x every selectable leaf kind with one and with two rows (Edit, Edit below a caption row,
+    SelectableIcon, Button, CheckBox, RadioButton) x 0, 1, 3 rows more than the tree needs: the cells of clause 3 that
+    are outside every selectable leaf (move_cursor_to_coords succeeds -> the cursor is reported on that row)"""
+    leaves = [
+        _e("ab", pos=1), _e("b", "c\n"), {"k": "icon", "txt": "a", "pos": 0}, {"k": "icon", "txt": "a\nb", "pos": 0},
+        {"k": "btn", "txt": "a", "st": 0}, {"k": "btn", "txt": "a a a a", "st": 0}, {"k": "chk", "txt": "a", "st": 1}, {"k": "radio", "txt": "a", "st": 0},
+    ]
+    tall = {"k": "text", "txt": "a\nb\nc", "al": 0}
+    for li, leaf in enumerate(leaves):
+        hosts = []
+        for wi, kid in enumerate((leaf, {"k": "attr", "n": leaf, "amap": 1, "fmap": 1}, {"k": "line", "n": leaf, "title": "", "drop": []})):
+            for va in (0, 1, 2, ["r", 30]):
+                for t in (0, 1):
+                    for b in (0, 1):
+                        if wi and t != b:
+                            continue
+                        hosts.append(("B", {"k": "filler", "n": kid, "h": ["k"], "va": va, "t": t, "b": b}))
+        hosts.append(("B", {"k": "pile", "c": [{"o": ["k"], "n": leaf}, {"o": ["w", 1], "n": {"k": "fill"}}], "f": None}))
+        for mode in ("F", "B"):
+            for div in (0, 1):
+                hosts.append((mode, {"k": "cols", "c": [{"o": ["w", 1], "box": 0, "n": leaf}, {"o": ["w", 1], "box": 0, "n": tall}], "div": div, "f": None}))
+        for hi, (mode, tree) in enumerate(hosts):
+            for dr in (0, 1, 3):
+                yield {"tree": tree, "mode": mode, "dc": (hi + dr) % 2, "dr": dr, "ev": (li + hi) % len(EVENTS), "ops": [], "ord": 0}
+
+
 def shard(ctx):
     depth = ctx.scale(3, 4)
+    ctx.sweep("tree", row_margin_cases(), nontrivial=nontrivial, classify=classify, exhaustive_name="row margins x selectable leaf kinds")
+    if ctx.failure:
+        return
     ctx.sweep("tree", setter_cases(), nontrivial=nontrivial, classify=classify, exhaustive_name="setter spellings x orders")
     if ctx.failure:
         return
@@ -1925,7 +2111,42 @@ def _k_gridflow_pack(sub, case, v):
     return "gridflow-pack" in fixed_by(v)
 
 
+NOT_ON_ROW = "nothing of it is drawn on the requested row"
+
+
+def _k_columns_move_row(sub, case, v):
+    """Columns.move_cursor_to_coords hands the row to the chosen column without looking at that column's rows: gone
+    under `columns-move` alone (not under the Filler's patch, which is tried first), and the symptom is the one of
+    that root cause - success for a cell on a row where nothing of the leaf that then shows the cursor is drawn"""
+    return fixed_by(v) == ["columns-move"] and v.clause == "move-cursor-requested-row" and NOT_ON_ROW in v.message
+
+
+def _filler_over_leaf_without_method(node):
+    """a Filler whose wrapped widget has no move_cursor_to_coords: a SelectableIcon, bare or below AttrMaps (whose
+    delegated attribute is as absent as the wrapped widget's)"""
+    kid = node["kids"][0] if node["kids"] else None
+    if node["k"] == "filler":
+        while kid is not None and kid["k"] == "attr":
+            kid = kid["kids"][0]
+        if kid is not None and kid["k"] == "icon":
+            return True
+    return any(_filler_over_leaf_without_method(k) for k in node["kids"])
+
+
+def _k_filler_move_no_method(sub, case, v):
+    """Filler.move_cursor_to_coords answers True before it looks at its top / bottom rows when the wrapped widget has
+    no move_cursor_to_coords: gone under `filler-move` alone, the cursor is then shown by a SelectableIcon, and the
+    tree does hold a Filler directly over one (also the Filler the harness puts around a flow leaf in a box position)"""
+    if not (fixed_by(v) == ["filler-move"] and v.clause == "move-cursor-requested-row" and NOT_ON_ROW in v.message):
+        return False
+    if not re.search(r"in probe \d+ \(icon ", v.message):
+        return False
+    return _filler_over_leaf_without_method(Planner().plan(case["tree"], "F" if case.get("mode") == "F" else "B"))
+
+
 KNOWN = {
+    "C09-columns-move-row-unchecked": _k_columns_move_row,
+    "C09-filler-move-no-method": _k_filler_move_no_method,
     "C09-overlay-cursor-none": _k_overlay_none,
     "C09-overlay-cursor-flow-top": _k_overlay_flow_top,
     "C09-filler-move-maxcol": _k_filler_move,
